@@ -2724,3 +2724,9 @@ LEVEL_NOTE = ('Trusted: Lean kernel; extract.py; the correspondence harness and 
               'predicate form of arrayIndexOf (machine_lib_heap: the heap is untouched unless a script call-back changes it) and to the '
               'wrapper\'s null for every other name (machine_lib_unmodelled); history arguments are variables or null/boolean/number/string '
               'literals (ArgOK).')
+
+
+# extension: further model code, theorems and streams (DESIGN 13.7)
+from props import c15x as _ext  # noqa: E402  pylint: disable=wrong-import-position
+_ext.EXTRA_ROOTS = ['Drv.C15X']
+fw.attach_extension(globals(), _ext)
